@@ -462,7 +462,7 @@ func (o *Oblig) smtFileRaw(getModel bool) string {
 }
 
 func sortedKeys(m map[string]bool) []string {
-	var out []string
+	out := []string{}
 	for k := range m {
 		out = append(out, k)
 	}
